@@ -9,7 +9,7 @@
 (*   TxBegin(t, r)         thread t started a transaction with read timestamp r        *)
 (*   TxRead(t, k, v)       a point read or an iteration of that transaction returned v *)
 (*                         for key k ("NOTFOUND" if absent)                            *)
-(*   TxCommit(t, tok, ok)  thread t's commit of token tok (written to every key)       *)
+(*   TxCommit(t, tok, ok, ks)  thread t's commit of token tok, written to the keys ks,  *)
 (*                         returned; ok = no error                                    *)
 (*                                                                                    *)
 (* A trace is accepted iff every read of a transaction with read timestamp r returns   *)
@@ -50,7 +50,8 @@ TxRead  == /\ IsEvent("TxRead")
            /\ Expect(ev.v, IF ev.t \in DOMAIN rts THEN Visible(ev.k, rts[ev.t]) ELSE "NO-TRANSACTION")
            /\ UNCHANGED <<hist, rts>>
 TxCommit == /\ IsEvent("TxCommit")
-            /\ (ev.ok => Check(\A k \in DOMAIN hist : ev.tok \in Range(hist[k].vals), <<"commit-not-in-history", ev.tok>>))
+            /\ (ev.ok => Check(\A j \in 1..Len(ev.ks) : ev.ks[j] \in DOMAIN hist /\ ev.tok \in Range(hist[ev.ks[j]].vals),
+                                <<"commit-not-in-history", ev.tok>>))
             /\ UNCHANGED <<hist, rts>>
 
 Next == Reset \/ History \/ TxBegin \/ TxRead \/ TxCommit
